@@ -8,6 +8,7 @@
 import MRB.Seq.Machine
 import MRB.Seq.Spec
 import MRB.Traits
+import MRB.Async
 
 namespace MRB.Driver
 open MRB
@@ -85,7 +86,24 @@ def renderObs (s : St) (newDrops : List Nat) : String :=
 structure Case where
   st : St
   sp : Sp
+  heldP : Option Op := none
+  heldW : Option Op := none
+  heldC : Option Op := none
+  wakes : Nat := 0
   deriving Inhabited
+
+def Case.ast (c : Case) : ASt := { st := c.st, heldP := c.heldP, heldW := c.heldW, heldC := c.heldC, wakes := c.wakes }
+def Case.withAst (c : Case) (a : ASt) : Case := { c with st := a.st, heldP := a.heldP, heldW := a.heldW, heldC := a.heldC, wakes := a.wakes }
+
+def renderPolled : Polled → String
+  | .ready o => "ready " ++ renderOut o
+  | .pending => "pending"
+
+/-- Keep the specification in step with the physical machine across a poll (it steps only when the operation is carried out). -/
+def specAfterPoll (sp : Sp) (op : Op) (p : Polled) : Sp :=
+  match p with
+  | .ready _ => (sp.step op).1
+  | .pending => sp
 
 def c16Table : String :=
   let row (t : Traits.Ty) : String :=
@@ -106,6 +124,35 @@ def handle (c : Option Case) (line : String) : Option Case × String :=
     | _, _, _, _, _ => (c, "bad-init")
   | [] => (c, "")
   | ["c16"] => (c, c16Table)
+  | "poll" :: rest =>
+    match c, parseOp rest with
+    | some c, some op =>
+      let (s1, p) := poll c.st op
+      let nd := s1.drops.drop c.st.drops.length
+      (some { c with st := s1, sp := specAfterPoll c.sp op p }, renderPolled p ++ " | " ++ renderObs s1 nd ++ s!" wakes {c.wakes}")
+    | none, _ => (c, "no-case")
+    | _, none => (c, "bad-op")
+  | "hold" :: r :: rest =>
+    match c, parseRole r, parseOp rest with
+    | some c, some r, some op =>
+      let (a1, p) := c.ast.hold r op
+      let nd := a1.st.drops.drop c.st.drops.length
+      (some { c.withAst a1 with sp := specAfterPoll c.sp op p }, renderPolled p ++ " | " ++ renderObs a1.st nd ++ s!" wakes {a1.wakes}")
+    | _, _, _ => (c, "bad-op")
+  | ["repoll", r] =>
+    match c, parseRole r with
+    | some c, some r =>
+      match c.ast.held r with
+      | none => (some c, "no-future")
+      | some op =>
+        let (a1, p) := c.ast.repoll r
+        let nd := a1.st.drops.drop c.st.drops.length
+        (some { c.withAst a1 with sp := specAfterPoll c.sp op p }, renderPolled p ++ " | " ++ renderObs a1.st nd ++ s!" wakes {a1.wakes}")
+    | _, _ => (c, "bad-op")
+  | ["dropfut", r] =>
+    match c, parseRole r with
+    | some c, some r => (some (c.withAst (c.ast.dropFut r)), "ok | " ++ renderObs c.st [] ++ s!" wakes {c.wakes}")
+    | _, _ => (c, "bad-op")
   | _ =>
     match c, parseOp ws with
     | some c, some op =>
@@ -113,7 +160,7 @@ def handle (c : Option Case) (line : String) : Option Case × String :=
       let (sp1, ao) := c.sp.step op
       let nd := st1.drops.drop c.st.drops.length
       let specNote := if o.abs op.producerGrant = ao then "" else s!" SPECDIFF spec={renderAOut ao}"
-      (some { st := st1, sp := sp1 }, renderOut o ++ " | " ++ renderObs st1 nd ++ specNote)
+      (some { c with st := st1, sp := sp1 }, renderOut o ++ " | " ++ renderObs st1 nd ++ specNote)
     | none, _ => (c, "no-case")
     | _, none => (c, "bad-op")
 
